@@ -849,6 +849,10 @@ func (s *sim) Next(rng *simcore.RNG) simcore.Op {
 			// ABCI: retain_height must leave what evidence verification needs; the genesis of
 			// pruning runs sets the evidence age to 3 blocks, the application keeps at least 4
 			tx = fmt.Sprintf("retain:%d", rng.Range(4, 7))
+			if rng.Bool(0.2) {
+				// a retain height beyond the tip: the node must refuse it and prune nothing
+				tx = fmt.Sprintf("retainover:%d", s.txSeq)
+			}
 		}
 		if s.cfg.Bool("valtx") && rng.Bool(0.3) {
 			vi := rng.Intn(len(s.nodes))
